@@ -101,7 +101,7 @@ class G:
 
     # ---- operators
     def conv(self, x, oc, k=3, stride=1, padding=PAD_SAME, act=ACT_NONE, dil=1, per_channel=True, oscale=None, ozp=None,
-             kw=None, stride_w=None, wdist=None, bias=True, wzp=None, bias64=False, share_w=None, share_b=None, dil_w=None):
+             kw=None, stride_w=None, wdist=None, bias=True, wzp=None, bias64=None, share_w=None, share_b=None, dil_w=None):
         r = self.rng
         X = self.T(x)
         _, h, w, ic = X.shape
@@ -133,6 +133,8 @@ class G:
             ins.append(share_b)
         elif bias:
             bsc = [float(np.float32(X.scale[0] * s)) for s in wsc]
+            if bias64 is None:
+                bias64 = X.dtype.name == "int16"  # 16x8 quantisation: int64 bias is the norm (int32 bias: only where asked for explicitly)
             bd = "int64" if (X.dtype.name == "int16" and bias64) else "int32"
             blim = 2 ** 15 if X.dtype.name != "int16" else 2 ** 20
             bdata = r.integers(-blim, blim, (oc,))
@@ -203,7 +205,7 @@ class G:
             wdata = self.rweights((1, k, k, oc), wdist)
         W = self.const(nm + "_w", (1, k, k, oc), wd, wdata, wsc, wz, 3)
         bsc = [float(np.float32(X.scale[0] * s)) for s in wsc]
-        B = self.const(nm + "_b", (oc,), "int32", r.integers(-(2 ** 14), 2 ** 14, (oc,)), bsc, [0] * nsc, 0)
+        B = self.const(nm + "_b", (oc,), "int64" if X.dtype.name == "int16" else "int32", r.integers(-(2 ** 14), 2 ** 14, (oc,)), bsc, [0] * nsc, 0)
         out = self.act(nm + "_o", (1, oh, ow, oc), oscale, ozp)
         self.net.add_o(BO.DEPTHWISE_CONV_2D, [x, W.name, B.name], [out.name], "DepthwiseConv2DOptions",
                        dict(padding=padding, stride_w=stride, stride_h=stride, depth_multiplier=mult, dilation_w_factor=dil,
@@ -539,7 +541,7 @@ def _rand_exact_op(g, x, allow_fc=False, big=False):
 
 def fam_exact_chain(seed, big=False, dtype=None):
     r = rng_for("exact-chain", seed, big)
-    dtype = dtype or str(r.choice(["int8", "int8", "int8", "uint8"]))
+    dtype = dtype or str(r.choice(["int8", "int8", "int8", "uint8", "int8", "int16"]))
     g = G(r, dtype)
     h = int(r.choice([4, 7, 8, 12, 16, 24] + ([32, 48] if big else [])))
     w = int(r.choice([4, 5, 8, 12, 16, 24] + ([32, 48] if big else [])))
